@@ -1,4 +1,4 @@
-HOOK_COMMITS = ["fa59ca4"]
+HOOK_COMMITS = ["fa59ca4", "baa2ee5", "5fa5168", "a80d288", "9c271e5", "dffdcac", "c6223e9", "a6c4b2b", "4f34dac"]
 NOTES = ("Technique family: machine-checked proof in Coq 8.16.1 about hand-written executable models, tied to /repo "
          "by a differential correspondence check that runs on every invocation (see DESIGN.md). "
          "not_applicable lists properties whose check is not built yet at this commit; none is judged out of reach of the technique.")
